@@ -8,8 +8,17 @@ from harness.common import stable_hash
 from harness import nano, cli, common
 
 PID = "C20"
-LEAN_MODULE = "NanoVerif.Props.C10"  # C20's proof obligations are the C10/C01/C04 theorems (imported by that module)
+LEAN_MODULE = "NanoVerif.Props.C20"  # imports Props.C10: the C10/C01/C04 theorems are obligations here too
 OBLIGATIONS = [
+    "NanoVerif.C20.flow_aligned",
+    "NanoVerif.C20.scalar_fields_cover",
+    "NanoVerif.C20.worker_sees_driver_config",
+    "NanoVerif.C20.worker_sees_driver_config_now",
+    "NanoVerif.C20.flag_decides",
+    "NanoVerif.C20.file_decides",
+    "NanoVerif.C20.default_decides",
+    "NanoVerif.C20.option_independent",
+    "NanoVerif.C20.options_reach_ufo",
     "NanoVerif.C10.precedence",
     "NanoVerif.C10.inventory_closed",
     "NanoVerif.C10.none_roundtrips",
@@ -305,17 +314,129 @@ def suite_rerun(ctx, res, n):
                             {"site": "c20-rerun", "option": r["key"], "observable": key})
 
 
+def _sym_eval(expr, env):
+    """evaluate the model's symbolic value `conv(conv(X:key))` with the REAL conversions and the real sources"""
+    from picosvg.svg_transform import Affine2D
+
+    if expr is None:
+        return None
+    if expr.endswith(")"):
+        name, _, inner = expr.partition("(")
+        v = _sym_eval(inner[:-1], env)
+        if name == "int":
+            return int(v)
+        if name == "float":
+            return float(v)
+        if name == "fromstring":
+            return v if isinstance(v, Affine2D) else Affine2D.fromstring(v)
+        if name == "tostring":
+            return v.tostring()
+        raise ValueError("unknown conversion " + name)
+    kind, _, key = expr.partition(":")
+    return env[kind](key)
+
+
+def suite_flow_model(ctx, res, n):
+    """tie of Model `loadCfg` / `writeToml` (over the tables regenerated from config.py) to the real `config.load` / `config.write`:
+    the model says, per option, WHICH source (flag, file key, default) and WHICH conversions make up the value; the real functions must
+    produce exactly that value.  Also evaluates the hypothesis `ConvLaw` of `worker_sees_driver_config` on the real conversions."""
+    import toml
+    from absl import flags
+    from nanoemoji import config as C
+    from harness.props import C10
+
+    FLAGS = flags.FLAGS
+    rng = ctx.rng
+    scalar = [f for f in C.FontConfig._fields if f not in ("axes", "masters", "source_names")]
+    dflt_none = [f for f in scalar if getattr(C._DEFAULT_CONFIG, f) is None]
+    tmp = common.scratch_dir("flow")
+    cases, ops = [], []
+    try:
+        for k in range(n):
+            cfg = C10.gen_config(rng, tmp)
+            try:
+                cfg.validate()
+            except (ValueError, AssertionError):
+                continue
+            dest = tmp / f"w{k}.toml"
+            C.write(dest, cfg)
+            written = toml.load(dest)
+            # a file that gives only some of the options
+            drop = [f for f in scalar if f in written and rng.random() < 0.4 and f != "output_file"]
+            if cfg.is_vf or len(cfg.masters) > 1:
+                drop = [f for f in drop if f != "color_format"]
+            partial = {kk: v for kk, v in written.items() if kk not in drop}
+            pdest = tmp / f"p{k}.toml"
+            pdest.write_text(toml.dumps(partial))
+            chosen = rng.sample(sorted(C10.FLAG_VALUES), rng.choice([0, 1, 3, 6, len(C10.FLAG_VALUES)]))
+            if cfg.is_vf or len(cfg.masters) > 1:
+                chosen = [c for c in chosen if c != "color_format"]
+            saved = {}
+            got = err = None
+            try:
+                for name in chosen:
+                    saved[name] = getattr(FLAGS, name)
+                    setattr(FLAGS, name, C10.FLAG_VALUES[name])
+                try:
+                    got = C.load(pdest)
+                except (ValueError, AssertionError) as e:
+                    err = e
+            finally:
+                for name, v in saved.items():
+                    setattr(FLAGS, name, v)
+            if got is None:
+                res.stat("flow:load-rejected")
+                continue
+            # the worker's view of what the driver resolved
+            wdest = tmp / f"r{k}.toml"
+            C.write(wdest, got)
+            again = C.load(wdest)
+            cases.append((cfg, written, partial, chosen, got, again))
+            ops.append({"op": "config-flow", "file": [f for f in scalar if f in partial], "flags": chosen, "nodefault": dflt_none,
+                        "cfgnone": [f for f in scalar if getattr(cfg, f) is None], "fields": scalar})
+        outs = ctx.driver.run(ops) if ops else []
+        for (cfg, written, partial, chosen, got, again), m in zip(cases, outs):
+            res.count(key=("flow", stable_hash(repr(cfg)), tuple(chosen), tuple(sorted(partial))), nontrivial=True)
+            res.stat("flow:flags=%d,file=%d" % (len(chosen), len([f for f in scalar if f in partial])))
+            env = {"F": lambda key: partial[key], "G": lambda key: C10.FLAG_VALUES[key], "D": lambda key: getattr(C._DEFAULT_CONFIG, key),
+                   "C": lambda key: getattr(cfg, key)}
+            for f, ml, mw, ma in zip(scalar, m["load"], m["write"], m["again"]):
+                try:
+                    want_load, want_write, want_again = _sym_eval(ml, env), _sym_eval(mw, env), _sym_eval(ma, env)
+                except Exception as e:  # noqa
+                    res.add_tie_break("Model loadCfg/writeToml symbolic value cannot be evaluated with the real conversions",
+                                      {"field": f, "flags": chosen, "file": sorted(partial)}, {"load": ml, "write": mw, "again": ma}, repr(e)[:200])
+                    continue
+                if want_load != getattr(got, f):
+                    res.add_tie_break("config.load vs Model loadCfg (which source and conversion make up an option)",
+                                      {"field": f, "flags": chosen, "file_has": f in partial}, ml, repr(getattr(got, f)))
+                if want_write != written.get(f):
+                    res.add_tie_break("config.write vs Model writeToml (which field a TOML key carries)", {"field": f}, mw, repr(written.get(f)))
+                if getattr(again, f) != getattr(got, f):
+                    res.add_cex(f"option {f!r}: the build step loads {getattr(again, f)!r} from the TOML the driver wrote, the driver resolved {getattr(got, f)!r}",
+                                {"field": f, "flags": chosen, "file_has": f in partial, "driver": repr(getattr(got, f)), "step": repr(getattr(again, f))},
+                                {"site": "c20-flow", "field": f})
+                if want_again != want_load:
+                    res.add_tie_break("hypothesis ConvLaw of worker_sees_driver_config fails on the real conversions",
+                                      {"field": f, "flags": chosen}, {"load": ml, "again": ma}, {"load": repr(want_load), "again": repr(want_again)})
+    finally:
+        shutil.rmtree(tmp, ignore_errors=True)
+
+
 def run(ctx, res):
     nano.init()
     res.rule = ("CLI builds of a 2-source set (one single codepoint, one ZWJ sequence): base, and per option {flag, file, both with different values}; "
                 "quick samples 8 of 15 perturbations, thorough all; plus multi-config invocations for sampled option pairs and the two known-finding "
                 "pairs; non-trivial = every non-base build")
+    suite_flow_model(ctx, res, ctx.budget(40, 300))
     suite_matrix(ctx, res, ctx.thorough)
     suite_pairs(ctx, res, ctx.budget(3, 9))
     suite_rerun(ctx, res, ctx.budget(3, 6))
 
 
 def search(ctx, res, broken):
+    nano.init()
+    suite_flow_model(ctx, res, 200)
     suite_matrix(ctx, res, True)
 
 
